@@ -664,8 +664,30 @@ func C19(c *core.Ctx, replay string) {
 			env := MustEnv(c, false, false, func(g *gw.Config) {
 				g.WebhookURL = co.URL()
 				p := filepath.Join(c.Scratch, fmt.Sprintf("filter-prec-%d.json", fi))
-				b, _ := json.Marshal(filter)
-				os.WriteFile(p, b, 0o644)
+				// the document lists the entries for single event types BEFORE the wildcards
+				// (a loader that lets "whichever comes last" win then mostly lets the wildcard
+				// win; every other start it is the other way round)
+				var names []string
+				for k := range filter {
+					names = append(names, k)
+				}
+				sort.Slice(names, func(a, b int) bool {
+					wa, wb := strings.HasSuffix(names[a], "*"), strings.HasSuffix(names[b], "*")
+					if wa != wb {
+						return !wa == (start%2 == 0)
+					}
+					return names[a] < names[b]
+				})
+				var sb strings.Builder
+				sb.WriteString("{")
+				for i, k := range names {
+					if i > 0 {
+						sb.WriteString(", ")
+					}
+					fmt.Fprintf(&sb, "%q: %v", k, filter[k])
+				}
+				sb.WriteString("}")
+				os.WriteFile(p, []byte(sb.String()), 0o644)
 				g.EventFilter = p
 			})
 			if env == nil {
